@@ -66,6 +66,67 @@ func checkC16(c *Check) {
 	c.Rule("R3", "reply converters: the default code pair is coherent on both edges of the temporariness predicate (4xx/4 when temporary, 5xx/5 otherwise), and the queue converter uses the predicate that drives retry", 2)
 	c16Converters(c)
 
+	c.Rule("R3b", "reply converters: when the basic code is copied from a typed error the enhanced code is copied from the same error in the same block, and vice versa (a reply never combines the code of one source with the class of another)", 2)
+	for _, cv := range [][3]string{{"internal/target/queue", "", "toSMTPErr"}, {"internal/endpoint/smtp", "Endpoint", "wrapErr"}} {
+		fi := p.Func(cv[0], cv[1], cv[2])
+		if fi == nil {
+			c.Fail("R3b", cv[2], token.NoPos, "anchor unresolved")
+			continue
+		}
+		info := fi.Info()
+		bad := ""
+		n := 0
+		ast.Inspect(fi.Decl.Body, func(x ast.Node) bool {
+			bs, ok := x.(*ast.BlockStmt)
+			if !ok {
+				return true
+			}
+			type cp struct{ dst, src, field string }
+			var copies []cp
+			for _, st := range bs.List {
+				as, ok := st.(*ast.AssignStmt)
+				if !ok || len(as.Lhs) != len(as.Rhs) {
+					continue
+				}
+				for i, l := range as.Lhs {
+					ls, ok := ast.Unparen(l).(*ast.SelectorExpr)
+					if !ok || (ls.Sel.Name != "Code" && ls.Sel.Name != "EnhancedCode") || fieldOf(info, ls) == nil {
+						continue
+					}
+					rhs := ast.Unparen(as.Rhs[i])
+					if conv, ok := rhs.(*ast.CallExpr); ok && len(conv.Args) == 1 {
+						if tv, ok := info.Types[conv.Fun]; ok && tv.IsType() {
+							rhs = ast.Unparen(conv.Args[0])
+						}
+					}
+					rs, ok := rhs.(*ast.SelectorExpr)
+					if !ok || fieldOf(info, rs) == nil || (rs.Sel.Name != "Code" && rs.Sel.Name != "EnhancedCode") {
+						continue
+					}
+					copies = append(copies, cp{exprStr(ls.X), exprStr(rs.X), ls.Sel.Name})
+				}
+			}
+			for _, a := range copies {
+				n++
+				other := "EnhancedCode"
+				if a.field == "EnhancedCode" {
+					other = "Code"
+				}
+				found := false
+				for _, b := range copies {
+					if b.dst == a.dst && b.src == a.src && b.field == other {
+						found = true
+					}
+				}
+				if !found {
+					bad = a.dst + "." + a.field + " is copied from " + a.src + " but " + a.dst + "." + other + " is not: the reply combines the " + a.field + " of " + a.src + " with a " + other + " from elsewhere (e.g. 451 with 5.x.x)"
+				}
+			}
+			return true
+		})
+		c.Hold("R3b", cv[2]+":pair-copied-together", fi.Decl.Pos(), bad == "" && n >= 2, bad)
+	}
+
 	c.Rule("R4", "field-map protocol: every type assertion Fields(err)[K].(T) has a writer storing a T under K", 4)
 	c.Rule("R4b", "every field-map writer that stores smtp_code also stores smtp_enchcode (the pair travels together)", 2)
 	c16FieldMap(c)
